@@ -24,7 +24,7 @@ Proof. apply pearson_r2_range. Qed.
 (* ---- the pinned tree ------------------------------------------------------------ *)
 
 Definition witness16 : lcase :=
-  mkl 0 [mkgv 0 0 1 [(0, 0); (0, 0)] []] [] [true; true] None true (Err 5) None.
+  mkl 0 [mkgv 0 0 1 [(0, 0); (0, 0)] []] [] [true; true] None true (Err 5) [].
 
 Lemma legacy_refuted :
   wf witness16 = true /\ legacy_ld witness16 = Err E_Attr /\ holds_ld witness16 = false
@@ -445,15 +445,20 @@ Lemma holds_ld_sound c rows td :
   holds_ld c = true ->
   (forall r, In r rows -> exists d, dosage_of c (l_fg c) (fst r) = Some d /\ r_near_spec (snd r) (corr td d))
   /\ (forall id, In id (requested c) -> countZ id (map fst rows) = 1)
-  /\ (target_is_hap c = true -> ~ In (l_target c) (map fst rows)).
+  /\ (target_is_hap c = true -> ~ In (l_target c) (map fst rows))
+  /\ (forall b r, In (b, Ok r) (l_sym c) ->
+        exists d, dosage_of c (l_fg c) b = Some d /\ r_near_spec r (corr d td) /\ r_near_spec r (corr td d)).
 Proof.
   intros W O T. unfold holds_ld. rewrite W, O, T. cbn [negb].
-  rewrite !andb_true_iff. intros [[[H1 H2] H3] _]. rewrite forallb_forall in H1, H2. split; [|split].
+  rewrite !andb_true_iff. intros [[[H1 H2] H3] H4]. rewrite forallb_forall in H1, H2, H4. split; [|split; [|split]].
   - intros r Hr. specialize (H1 r Hr). destruct (dosage_of c (l_fg c) (fst r)) as [d|]; [|discriminate].
     exists d. split; [reflexivity|apply r_near_sound; exact H1].
   - intros id Hid. apply Z.eqb_eq. apply H2. exact Hid.
   - intros TH K. rewrite TH in H3. cbn [andb] in H3. apply negb_true_iff in H3.
     apply memZ_In in K. congruence.
+  - intros b r Hb. specialize (H4 _ Hb). cbn [fst snd] in H4.
+    destruct (dosage_of c (l_fg c) b) as [d|]; [|discriminate].
+    exists d. split; [reflexivity|]. split; [|rewrite (corr_sym d td)]; apply r_near_sound; exact H4.
 Qed.
 
 (* ---- every R of the model is the correlation of the two dosages ---------------------------------- *)
@@ -686,7 +691,7 @@ Qed.
 Definition witness16_dup : lcase :=
   mkl 5 [mkgv 0 0 1 [(0, 1); (1, 1); (0, 0)] []; mkgv 1 0 1 [(0, 0); (1, 1); (0, 1)] []]
       [HL (mkhap 5 [(0, 1)])] [true; true; true] (Some [1; 1]) true
-      (Ok [(1, Some 500); (1, Some 500)]) None.
+      (Ok [(1, Some 500); (1, Some 500)]) [].
 
 Lemma legacy_dup_refuted :
   wf witness16_dup = true
